@@ -58,6 +58,11 @@ type c01Delivery struct {
 	// the context of the delivered copy was live at handler entry; when it is not, the
 	// (context-aware) handler fails with the context's error whatever the script says
 	CtxLive bool `json:"ctx_live"`
+	// which Router the stage's handler lives on, the handler's name, and the ids of the middlewares
+	// that were entered for this call, outermost first
+	Router int    `json:"router"`
+	HName  string `json:"hname"`
+	Mws    []int  `json:"mws"`
 
 	mu   sync.Mutex
 	copy *message.Message
@@ -93,6 +98,14 @@ type c01Case struct {
 	// receives, in the middle of the run - its redeliveries, cancel and teardown must not disturb
 	// the stage's own subscription (C01_gochannel_refines_topic_step: steps of other subscriptions
 	// are stutters).  Not in blocking mode (that would be D9).
+	// bystander HANDLERS on the pipeline's Router(s): 0 none, 1 one handler registered under the
+	// EMPTY name, 2 that one and a named one; each is subscribed to a topic of its own and carries
+	// handler-level middlewares of its own (one swallows errors, one Acks before the handler runs);
+	// ByFirst: they are registered before the stages.  Regs = every middleware registration of every
+	// Router in registration order.
+	Bystanders int            `json:"bystanders"`
+	ByFirst    bool           `json:"by_first"`
+	Regs       [][]c01MwReg   `json:"regs"`
 	Bystander       int `json:"bystander"`
 	BystanderCancel int `json:"bystander_cancel"`
 	BystanderGot    int `json:"bystander_got"`
@@ -115,10 +128,19 @@ type c01Case struct {
 	srcOpen  int
 	lastEv   time.Time
 	lastTick int64 // value of c01Ticks at the last event
+	mwSeen   map[*message.Message][]int // middleware ids entered for a copy, before its handler ran
+	stRouter []int
+	stName   []string
 	deadCtx  int   // deliveries that arrived with a dead context
 	aborted  bool  // too many of them: the fault never stops, the case is given up
 	done     chan struct{}
 	wg       sync.WaitGroup
+}
+
+type c01MwReg struct {
+	RouterLevel bool   `json:"router_level"`
+	HName       string `json:"hname"`
+	ID          int    `json:"id"`
 }
 
 type c01Key struct{}
@@ -214,6 +236,47 @@ func (c *c01Case) fan(stage, lin int) int {
 	return row[lin%len(row)]
 }
 
+func (c *c01Case) noteMw(msg *message.Message, id int) {
+	c.mu.Lock()
+	c.mwSeen[msg] = append(c.mwSeen[msg], id)
+	c.mu.Unlock()
+}
+
+// a middleware that only records that it ran
+func (c *c01Case) mwRecord(id int) message.HandlerMiddleware {
+	return func(h message.HandlerFunc) message.HandlerFunc {
+		return func(msg *message.Message) ([]*message.Message, error) {
+			c.noteMw(msg, id)
+			return h(msg)
+		}
+	}
+}
+
+// a best-effort middleware: the owning handler's errors are swallowed
+func (c *c01Case) mwSwallow(id int) message.HandlerMiddleware {
+	return func(h message.HandlerFunc) message.HandlerFunc {
+		return func(msg *message.Message) ([]*message.Message, error) {
+			c.noteMw(msg, id)
+			outs, err := h(msg)
+			if err != nil {
+				return nil, nil
+			}
+			return outs, nil
+		}
+	}
+}
+
+// an instant-ack middleware: the owning handler's messages are Acked before it runs
+func (c *c01Case) mwInstantAck(id int) message.HandlerMiddleware {
+	return func(h message.HandlerFunc) message.HandlerFunc {
+		return func(msg *message.Message) ([]*message.Message, error) {
+			c.noteMw(msg, id)
+			msg.Ack()
+			return h(msg)
+		}
+	}
+}
+
 func (c *c01Case) handler(stage int) message.HandlerFunc {
 	return func(msg *message.Message) ([]*message.Message, error) {
 		// every handler is context-aware, as handlers with I/O or a Timeout middleware are: with
@@ -232,7 +295,9 @@ func (c *c01Case) handler(stage int) message.HandlerFunc {
 		}
 		call := c.calls[stage]
 		c.calls[stage]++
-		d := &c01Delivery{Seq: len(c.Log), Stage: stage, Call: call, copy: msg, Fwd: []c01Msg{}, CtxLive: ctxErr == nil}
+		d := &c01Delivery{Seq: len(c.Log), Stage: stage, Call: call, copy: msg, Fwd: []c01Msg{}, CtxLive: ctxErr == nil,
+			Router: c.stRouter[stage], HName: c.stName[stage], Mws: append([]int{}, c.mwSeen[msg]...)}
+		delete(c.mwSeen, msg)
 		if call < len(c.Script[stage]) {
 			d.Fault = c.Script[stage][call]
 		}
@@ -403,6 +468,10 @@ func (c *c01Case) quiescent() bool {
 }
 
 func c01Run(rt *hookrt.Runtime, c *c01Case, stall time.Duration) {
+	c.mwSeen = map[*message.Message][]int{}
+	c.stRouter = make([]int, c.K)
+	c.stName = make([]string, c.K)
+	c.Regs = nil
 	c.calls = make([]int, c.K)
 	c.accepted = make([]int, c.K+1)
 	c.acked = make([]int, c.K)
@@ -559,13 +628,57 @@ func c01Run(rt *hookrt.Runtime, c *c01Case, stall time.Duration) {
 		routers = append(routers, r)
 		return r
 	}
+	// bystander handlers live on a GoChannel of their own
+	byPS := gochannel.NewGoChannel(gochannel.Config{}, logger)
+	pss = append(pss, byPS) // closed with the others at teardown
+	var byTopics []string
+	reg := func(ri int, routerLevel bool, hname string, id int) {
+		c.Regs[ri] = append(c.Regs[ri], c01MwReg{RouterLevel: routerLevel, HName: hname, ID: id})
+	}
+	addBystanders := func(r *message.Router, ri int) {
+		names := []string{"", "zz"}
+		for i := 0; i < c.Bystanders && i < 2; i++ {
+			bt := fmt.Sprintf("c%d-by%d-%d", c.ID, ri, i)
+			byTopics = append(byTopics, bt)
+			calls := 0
+			h := r.AddNoPublisherHandler(names[i], bt, byPS, func(msg *message.Message) error {
+				calls++
+				if calls == 1 {
+					return errors.New("bystander handler error (its own middleware swallows it)")
+				}
+				return nil
+			})
+			base := 200 + 100*ri + 10*i
+			h.AddMiddleware(c.mwSwallow(base))
+			reg(ri, false, names[i], base)
+			if i == 0 {
+				h.AddMiddleware(c.mwInstantAck(base + 1))
+				reg(ri, false, names[i], base+1)
+			}
+		}
+	}
 	var r *message.Router
+	ri := -1
 	for s := 0; s < c.K; s++ {
 		if s == 0 || !c.OneRouter {
 			r = newRouter()
+			ri++
+			c.Regs = append(c.Regs, []c01MwReg{})
+			r.AddMiddleware(c.mwRecord(1 + ri))
+			reg(ri, true, "", 1+ri)
+			if c.ByFirst {
+				addBystanders(r, ri)
+			}
 		}
 		pub := &c01Publisher{c: c, stage: s, real: psFor(s + 1), topic: topic(s + 1)}
-		r.AddHandler(fmt.Sprintf("h%d", s), topic(s), psFor(s), topic(s+1), pub, c.handler(s))
+		name := fmt.Sprintf("h%d", s)
+		c.stRouter[s], c.stName[s] = ri, name
+		h := r.AddHandler(name, topic(s), psFor(s), topic(s+1), pub, c.handler(s))
+		h.AddMiddleware(c.mwRecord(100 + s))
+		reg(ri, false, name, 100+s)
+		if !c.ByFirst && (s == c.K-1 || !c.OneRouter) {
+			addBystanders(r, ri)
+		}
 	}
 	ctx, cancel := context.WithCancel(context.Background())
 	runErrs := make(chan error, len(routers))
@@ -579,6 +692,9 @@ func c01Run(rt *hookrt.Runtime, c *c01Case, stall time.Duration) {
 		}
 	}
 	// persistent + early: subscriptions replay in the background; nothing to wait for.
+	for _, bt := range byTopics {
+		byPS.Publish(bt, message.NewMessage("by-"+bt, []byte("bystander")))
+	}
 
 	// concurrent source publishers
 	var pwg sync.WaitGroup
@@ -735,6 +851,8 @@ func c01Gen(rng *rand.Rand, id int, big bool) *c01Case {
 	c.Blocking = rng.Intn(4) == 0
 	c.Perturb = rng.Intn(3) == 0
 	c.PanicVal = rng.Intn(3)
+	c.Bystanders = []int{0, 1, 1, 2}[rng.Intn(4)]
+	c.ByFirst = rng.Intn(2) == 0
 	c.Bystander = -1
 	if rng.Intn(3) == 0 {
 		c.Bystander = rng.Intn(c.K + 1)
@@ -812,7 +930,7 @@ func c01Singles(id *int, k, nsrc int, fans [][]int, blocking, persistent bool, b
 	for s := 0; s < k; s++ {
 		for call := 0; call < nsrc+1; call++ {
 			for _, f := range kinds {
-				c := &c01Case{ID: *id, Kind: "single", Bystander: -1, K: k, NSrc: nsrc, Fans: fans, Publishers: 1, FailSrc: []int{},
+				c := &c01Case{ID: *id, Kind: "single", Bystander: -1, Bystanders: (*id) % 3, ByFirst: (*id)%2 == 0, K: k, NSrc: nsrc, Fans: fans, Publishers: 1, FailSrc: []int{},
 					Blocking: blocking, Persistent: persistent, Buffer: buffer, OneRouter: (*id)%2 == 0, SharedPS: true, PanicVal: (*id) % 3,
 					CtxErr: (*id)%2 == 1, SameUUID: (*id)%5 == 0}
 				*id++
